@@ -52,9 +52,9 @@ def task_ics(uid, occ, maxsim=0, owner=None, dur=None, method='PUBLISH', extra=(
     return L
 
 
-def request(items, method='PUBLISH', cal_maxsim=0):
+def request(items, method='PUBLISH', cal_maxsim=0, cal_extra=()):
     """items: list of dicts kind=add|cancel ...; cal_maxsim: a limit stated for the whole calendar (an event's own statement goes first)"""
-    L = ['BEGIN:VCALENDAR', 'VERSION:2.0', 'METHOD:' + method] + (['X-ECHS-MAX-SIMUL:%d' % cal_maxsim] if cal_maxsim else [])
+    L = ['BEGIN:VCALENDAR', 'VERSION:2.0', 'METHOD:' + method] + (['X-ECHS-MAX-SIMUL:%d' % cal_maxsim] if cal_maxsim else []) + list(cal_extra)
     for it in items:
         if it['kind'] == 'add':
             L += task_ics(it['uid'], it['occ'], it.get('text_maxsim', it.get('maxsim', 0)), it.get('owner_uid', it.get('owner_name')), it.get('dur'), extra=it.get('extra', ()), allday=it.get('allday', False), past_rule=it.get('past_rule', False))
@@ -206,8 +206,10 @@ def random_script(rnd, ntasks=3, peers=(1000,), horizon=14, maxsims=(0, 0, 1, 2)
         if calmax and rnd.random() < 0.3:
             # the request states a limit for the whole calendar; the event states its own (which then counts), or none
             cal = rnd.choice([1, 2, 3]); it['text_maxsim'] = it['maxsim']; it['maxsim'] = it['maxsim'] or cal
+        # other things stated for the whole calendar (a umask, a shell) say nothing about the limit
+        cx = [rnd.choice(['X-ECHS-UMASK:002', 'X-ECHS-UMASK:022', 'X-ECHS-UMASK:0100', 'X-ECHS-UMASK:077', 'X-ECHS-SHELL:/bin/sh'])] if calmax and rnd.random() < 0.3 else []
         metas[len(cmds)] = [it]
-        cmds.append(areq(rnd, it['peer'], request([it], cal_maxsim=cal)))
+        cmds.append(areq(rnd, it['peer'], request([it], cal_maxsim=cal, cal_extra=cx)))
     for u in uids:
         if rnd.random() < 0.8: add(u)
     for _ in range(steps):
